@@ -148,7 +148,8 @@ def build(rng, strings, k):
             good.append(e['bytes'])
     total = 32 + len(body)
     decl = rng.choice([total, total, total + 64, max(32, total - rng.randrange(1, 40)), 32, 0, 0xFFFFFFFF, 33])
-    hdr = [rng.choice([2, 1, 255]), 0x20, 1, 0x42] + compb + [0, 0, 0, 0] + u32(decl) + u32(rng.choice([0, 3, 254, 4294967295])) + u32(rng.randrange(1 << 32))
+    # (the fourth byte is the header's endian flag: 'B' on every dump seen so far; the arguments are big-endian whatever it says)
+    hdr = [rng.choice([2, 1, 255]), 0x20, 1, rng.choice([0x42, 0x42, 0x42, 0x4C, 0x6C, 0x00, 0xFF])] + compb + [0, 0, 0, 0] + u32(decl) + u32(rng.choice([0, 3, 254, 4294967295])) + u32(rng.randrange(1 << 32))
     data = hdr + body
     if stop == 'cut' and len(data) > 33:
         data = data[: rng.randrange(33, len(data))]
@@ -188,7 +189,7 @@ def run_case(case):
             if not isinstance(lines, list):
                 lines = ['the plug-in returned no Trace lines: %s' % str(out)[:150]]
         else:
-            lines = parse_trace_data(memoryview(bytes(data)), path)
+            lines = parse_trace_data(drawer.view(data, k), path)
         if label == 'synthetic':
             os.remove(path)
         rec = dict(family='C15', shape_ok=True, label=label, data=data,
